@@ -355,7 +355,7 @@ func (w *World) exec(cmd loop.Cmd) {
 		// already in the Merging state (CmdTryMerge marks it synchronously), the work happens when the explorer says so
 		u, ok := w.newMergingUnit()
 		if !ok {
-			w.Violation = "harness: a merge command was issued but no stage has a newly merging unit"
+			w.Violation = "a merge command was issued but no unit is in the Merging state: CmdTryMerge did not claim the unit synchronously, so a second merge command can claim the same segment"
 			return
 		}
 		w.pending = append(w.pending, &event{mergeStage: u[1], id: fmt.Sprintf("merge-body{seg=%d,stage=%d}", u[0], u[1]), mergeCmd: cmd})
